@@ -2,12 +2,14 @@ use crate::PropEntry;
 
 pub mod c01;
 pub mod c02;
+pub mod c03;
 pub mod c18;
 
 pub fn registry() -> Vec<PropEntry> {
     vec![
         PropEntry { id: "C01", run: c01::run, replay: c01::replay },
         PropEntry { id: "C02", run: c02::run, replay: c02::replay },
+        PropEntry { id: "C03", run: c03::run, replay: c03::replay },
         PropEntry { id: "C18", run: c18::run, replay: c18::replay },
     ]
 }
